@@ -169,8 +169,10 @@ func verifRunUntilBlocked(f func()) {
 	}
 }
 
-// verifFireAfterFuncs fires pending time.AfterFunc callbacks (engine only).
-func verifFireAfterFuncs() int { return 0 }
+// verifFireAfterFuncs fires the armed time.AfterFunc callbacks and returns how
+// many there were (engine); natively it waits long enough for the short
+// timers the harnesses configure (<= 400 ms) to fire and returns -1.
+func verifFireAfterFuncs() int { time.Sleep(650 * time.Millisecond); return -1 }
 
 // verifSettle: let goroutines spawned by the call under test finish (native);
 // under the engine such goroutines run synchronously (stated per harness).
